@@ -457,12 +457,11 @@ exact: Hlt'.
 Qed.
 
 Lemma iloop_inv cnt : forall i st,
-  (0 < i)%N -> (i + cnt = n)%N -> Iinv i st -> Iinv n (iloopF grid a md cnt i st).
+  (0 < i)%N -> (i + cnt <= n)%N -> Iinv i st -> Iinv (i + cnt) (iloopF grid a md cnt i st).
 Proof.
-elim: cnt => [|cnt IH] i st i0 Ei HI.
-  by move: HI; rewrite addn0 in Ei; rewrite Ei.
-rewrite [iloopF _ _ _ _ _ _]/=; apply: IH => //; first by rewrite addSnnS.
-by apply: istep_inv => //; rewrite -Ei -addSnnS leq_addr.
+elim: cnt => [|cnt IH] i st i0 Ei HI; first by rewrite addn0.
+rewrite [iloopF _ _ _ _ _ _]/= -addSnnS; apply: IH => //; first by rewrite addSnnS.
+by apply: istep_inv => //; apply: leq_trans Ei; rewrite -addSnnS leq_addr.
 Qed.
 
 Lemma init_inv : Iinv 1 (initF grid a).
@@ -479,14 +478,31 @@ rewrite /initF; split; cbn [fst snd Nat.pred].
   by rewrite /= phi0 linear0 horner0.
 Qed.
 
+(* after [stages] rounds the columns 0..stages hold the derivatives at the centre of the
+   Lagrange basis polynomials of the first stages+1 points; the other columns are zero *)
+Theorem stages_lagrange stages : (stages < n)%N ->
+  let st := iloopF grid a md stages 1 (initF grid a) in
+  [/\ phi st.1.2 = x stages - a',
+      forall j k, (j <= stages)%N -> (k <= md)%N ->
+        vphi (st.2 j k) = Some ((L x stages j)^`(k).[a'])
+    & forall j k, (stages < j)%N -> (k <= md)%N -> vphi (st.2 j k) = Some 0].
+Proof.
+move=> lt_s /=.
+have [|_ E4 H1 H2] := @iloop_inv stages 1%N (initF grid a) isT _ init_inv.
+  by rewrite add1n.
+rewrite add1n /= in E4 H1 H2; split=> //.
+- by move=> j k le_j le_k; apply: H1.
+- by move=> j k lt_j le_k; rewrite (H2 j lt_j k le_k) linear0 horner0.
+Qed.
+
 (* the recurrence computes the derivatives at the centre of the Lagrange basis *)
 Theorem fdiffF_lagrange j k : (0 < n)%N -> (j < n)%N -> (k <= md)%N ->
   vphi (fdiffF grid a md j k) = Some ((L x n.-1 j)^`(k).[a']).
 Proof.
 move=> n0 lt_jn lek.
-have E : (1 + (n - 1) = n)%N by rewrite subnKC.
-have [_ _ H _] := @iloop_inv (n - 1)%N 1%N (initF grid a) isT E init_inv.
-exact: H.
+have lt_s : (n - 1 < n)%N by rewrite subn1 prednK.
+have [_ H _] := stages_lagrange lt_s.
+by rewrite /fdiffF -subn1; apply: H => //; rewrite subn1 -ltnS prednK.
 Qed.
 
 End Inv.
@@ -524,6 +540,107 @@ Lemma phi_sumQc f m : phi (sumQc f m) = \sum_(0 <= j < m) phi (f j).
 Proof.
 elim: m => [|m IH] /=; first by rewrite big_geq // phi0.
 by rewrite big_nat_recr //= phiD IH.
+Qed.
+
+(* ---------- part 7: the list form of the Lagrange basis ---------- *)
+Lemma polyQ_cons c p : polyQ (c :: p) = polyQ p * 'X + (phi c)%:P.
+Proof. by rewrite /polyQ /= cons_poly_def. Qed.
+
+Lemma polyQ_nil : polyQ [::] = 0.
+Proof. by []. Qed.
+
+Lemma polyQ_padd p q : polyQ (padd p q) = polyQ p + polyQ q.
+Proof.
+elim: p q => [|a p IH] [|b q]; rewrite ?polyQ_nil ?add0r ?addr0 //.
+rewrite [padd _ _]/= !polyQ_cons IH phiD polyCD mulrDl.
+by rewrite addrACA.
+Qed.
+
+Lemma polyQ_pscale c p : polyQ (pscale c p) = phi c *: polyQ p.
+Proof.
+elim: p => [|a p IH]; first by rewrite /= polyQ_nil scaler0.
+by rewrite [pscale _ _]/= !polyQ_cons IH phiM scalerDr -scalerAl polyCM mul_polyC.
+Qed.
+
+Lemma polyQ_pmul_lin p r : polyQ (pmul_lin p r) = polyQ p * ('X - (phi r)%:P).
+Proof.
+rewrite /pmul_lin polyQ_padd polyQ_cons polyQ_pscale phi0' addr0 phiN.
+by rewrite mulrBr scaleNr -mul_polyC [_%:P * _]mulrC.
+Qed.
+
+Lemma polyQ_lagrange_from rest l j xj :
+  polyQ (lagrange_from rest l j xj) =
+  \prod_(0 <= t < length rest | (l + t)%N != j)
+     ((phi xj - phi (List.nth t rest (Q2Qc 0)))^-1 *: ('X - (phi (List.nth t rest (Q2Qc 0)))%:P)).
+Proof.
+elim: rest l => [|y r IH] l.
+  by rewrite big_geq //= polyQ_cons polyQ_nil mul0r add0r phi1' .
+rewrite [length _]/= big_mkcond big_nat_recl // -big_mkcond /= addn0.
+rewrite [lagrange_from _ _ _ _]/=.
+have E : \prod_(0 <= i < length r | (l + i.+1)%N != j)
+           ((phi xj - phi (List.nth i r (Q2Qc 0)))^-1 *: ('X - (phi (List.nth i r (Q2Qc 0)))%:P))
+         = polyQ (lagrange_from r l.+1 j xj).
+  by rewrite IH; apply: eq_bigl => t; rewrite addSnnS.
+rewrite E; case: Nat.eqb_spec => [->|/eqP ne]; first by rewrite eqxx mul1r.
+rewrite (negbTE ne) /= polyQ_pscale polyQ_pmul_lin phiV phiB.
+by rewrite -scalerAl mulrC.
+Qed.
+
+Lemma nth_firstn_lt (A : Type) (d : A) m : forall (l : list A) t,
+  (t < m)%coq_nat -> List.nth t (firstn m l) d = List.nth t l d.
+Proof.
+elim: m => [|m IH] l t H; first by lia.
+case: l => [|y l] //=; case: t H => [|t] H //.
+by apply: IH; lia.
+Qed.
+
+Lemma polyQ_lagrange grid i j :
+  (i < length grid)%N -> (j <= i)%N ->
+  polyQ (lagrange (firstn i.+1 grid) j) = L (fun l => phi (gpt grid l)) i j.
+Proof.
+move=> lt_i le_j; rewrite /lagrange polyQ_lagrange_from /L.
+have -> : length (firstn i.+1 grid) = i.+1 by rewrite firstn_length_le //; apply/ltP.
+rewrite big_nat_cond [RHS]big_nat_cond; apply: eq_big => [t|t /andP[/andP[_ lt_t] _]].
+  by rewrite add0n.
+rewrite !nth_firstn_lt //; first by apply/ltP.
+by apply/ltP; rewrite ltnS.
+Qed.
+
+(* ---------- part 8: the loop invariant, in the vocabulary of FdiffSpec ---------- *)
+Lemma vphi_eq v q : vphi v = Some (phi q) -> v = VQ q.
+Proof. by case: v => //= p [/phi_inj->]. Qed.
+
+Theorem fornberg_invariant (grid : list Qc) (a : Qc) (max_deriv : N) (stages : nat) :
+  NoDup grid -> guard_size (length grid) max_deriv = true ->
+  (stages < length grid)%coq_nat ->
+  exists c1 w,
+    [/\ fdiff_stages stages grid max_deriv a
+          = Ok (c1, Qcminus (List.nth stages grid (Q2Qc 0)) a, w),
+        length w = (length grid * (N.to_nat max_deriv + 1))%coq_nat,
+        forall j k : nat, (j <= stages)%coq_nat -> (k <= N.to_nat max_deriv)%coq_nat ->
+          List.nth (j + k * length grid)%coq_nat w VNan
+          = VQ (peval (pderivn k (lagrange (firstn stages.+1 grid) j)) a)
+      & forall j k : nat, (stages < j)%coq_nat /\ (j < length grid)%coq_nat -> (k <= N.to_nat max_deriv)%coq_nat ->
+          List.nth (j + k * length grid)%coq_nat w VNan = VQ (Q2Qc 0)].
+Proof.
+move=> Hnd G /ltP lt_s; have [n0 Hsz] := guard_sizeP _ _ G.
+set md := N.to_nat max_deriv in Hsz *.
+have [w [Ew Rw]] := fdiff_stages_refines grid a md n0 Hsz stages (elimT ltP lt_s).
+rewrite N2Nat.id in Ew.
+have [E4 H1 H2] := @stages_lagrange grid a md Hnd stages lt_s.
+move: Ew Rw E4 H1 H2; case: (iloopF _ _ _ _ _ _) => [[c1 c4] F]; cbn [fst snd] => Ew Rw E4 H1 H2.
+exists c1, w; split.
+- rewrite Ew; congr (Ok (_, _, _)); apply: phi_inj.
+  by rewrite E4 phiB.
+- by case: Rw.
+- move=> j k le_j le_k.
+  have lt_j : (j < length grid)%coq_nat by move/ltP: lt_s => ?; lia.
+  rewrite (repr_nth grid md w _ j k VNan Rw lt_j le_k); apply: vphi_eq.
+  rewrite (H1 j k (introT leP le_j) (introT leP le_k)).
+  by rewrite phi_peval polyQ_pderivn polyQ_lagrange //; apply/leP.
+- move=> j k [lt_sj lt_j] le_k.
+  rewrite (repr_nth grid md w _ j k VNan Rw lt_j le_k); apply: vphi_eq.
+  by rewrite (H2 j k (introT ltP lt_sj) (introT leP le_k)) phi0'.
 Qed.
 
 (* ---------- part 6: the theorems, in the vocabulary of FdiffSpec ---------- *)
@@ -567,6 +684,9 @@ exists w; split=> //.
   by rewrite /wq (repr_nth grid md w _ j k VNan Rw lt_j le_k); apply: vphi_wq; apply: HF.
 Qed.
 
+Lemma sumQc_ext f g m : (forall j, f j = g j) -> sumQc f m = sumQc g m.
+Proof. by move=> E; elim: m => [|m IH] //=; rewrite IH E. Qed.
+
 (* partition of unity: the order-0 weights sum to 1, the higher-order weights to 0 *)
 Corollary partition_of_unity (grid : list Qc) (a : Qc) (max_deriv : N) :
   NoDup grid -> guard_size (length grid) max_deriv = true ->
@@ -582,7 +702,7 @@ have := H k [:: Q2Qc 1] le_k n0.
 rewrite /apply_weights => E.
 have -> : sumQc (fun j => wq w (j + k * length grid)) (length grid)
         = sumQc (fun j => Qcmult (wq w (j + k * length grid)) (peval [:: Q2Qc 1] (List.nth j grid (Q2Qc 0)))) (length grid).
-  elim: (length grid) => [|m IH] //=; rewrite IH; congr Qcplus.
+  apply: sumQc_ext => j.
   by apply: phi_inj; rewrite phiM phiD phiM !phi0' phi1' mulr0 addr0 mulr1.
 rewrite E; apply: phi_inj; rewrite phi_peval polyQ_pderivn /polyQ /= phi1'.
 rewrite cons_poly_def mul0r add0r derivnC.
